@@ -98,7 +98,8 @@ type sinfo struct {
 	raw  net.Conn
 	link *link
 
-	hookOK       int64 // stamp taken when the accept/dial hook was about to return OK (0: it did not)
+	through      chan struct{} // closed when the accept/dial hook is about to return (either way)
+	hookOK       int64         // stamp taken when the accept/dial hook was about to return OK (0: it did not)
 	rejected     int32
 	healthInHook int32
 	disc         int32 // PostDisconnect invocations
@@ -203,12 +204,20 @@ type directive struct {
 	setid   string
 	release chan struct{}
 	once    sync.Once
+	hold    chan struct{} // harness-internal: fixes the order in which the two ends get through their hooks
+	hOnce   sync.Once
 }
 
 // free releases a parked hook (idempotent).
 func (d *directive) free() {
 	if d != nil && d.release != nil {
 		d.once.Do(func() { close(d.release) })
+	}
+}
+
+func (d *directive) unhold() {
+	if d != nil && d.hold != nil {
+		d.hOnce.Do(func() { close(d.hold) })
 	}
 }
 
@@ -265,7 +274,8 @@ func (r *recorder) PostDisconnect(s erpc.BaseSession) *erpc.Status {
 
 func (w *world) hook(side int, ps erpc.PreSession, via string) *erpc.Status {
 	sess := ps.(erpc.Session)
-	si := &sinfo{side: side, sess: sess, via: via}
+	si := &sinfo{side: side, sess: sess, via: via, through: make(chan struct{})}
+	defer close(si.through)
 	ps.ModifySocket(func(c net.Conn) (net.Conn, erpc.ProtoFunc) { si.raw = c; return nil, nil })
 	w.mu.Lock()
 	si.n = len(w.all)
@@ -284,6 +294,9 @@ func (w *world) hook(side int, ps erpc.PreSession, via string) *erpc.Status {
 	if d != nil {
 		if d.setid != "" {
 			ps.SetID(d.setid)
+		}
+		if d.hold != nil {
+			<-d.hold
 		}
 		if d.park {
 			w.parked <- si
@@ -343,10 +356,12 @@ func (w *world) sessions() []*sinfo {
 	return append([]*sinfo(nil), w.all...)
 }
 
+// find returns the most recently created session satisfying f (addresses can be reused by the kernel).
 func (w *world) find(f func(*sinfo) bool) *sinfo {
-	for _, si := range w.sessions() {
-		if f(si) {
-			return si
+	all := w.sessions()
+	for i := len(all) - 1; i >= 0; i-- {
+		if f(all[i]) {
+			return all[i]
 		}
 	}
 	return nil
@@ -360,10 +375,14 @@ func (w *world) waitFind(f func(*sinfo) bool) *sinfo {
 
 // await waits for ch. "Stuck" is a state predicate: the process is quiescent and ch is still open.
 func (w *world) await(ch <-chan struct{}) (done bool, watchdog bool) {
+	fast := 40 * time.Millisecond
+	if w.tcp {
+		fast = 200 * time.Millisecond
+	}
 	select {
 	case <-ch:
 		return true, false
-	case <-time.After(40 * time.Millisecond):
+	case <-time.After(fast):
 	}
 	for i := 0; i < 2; i++ {
 		q := quiesce.Wait(w.qopt())
@@ -417,6 +436,9 @@ func (w *world) pushDirs(dS, dC *directive) {
 
 // connect creates one connection between C and S. With a parking directive on one side, or noWaitS, the
 // corresponding ServeConn / Dial is left running and its completion channel is in the link.
+// The order in which the two ends get through their hooks is fixed: the end that rejects goes last, otherwise the
+// far end completes first. (ServeConn starts its read loop before the index insert; a connection that ends in
+// that window is what the accept-insert gate script decides - here it would be a coin toss.)
 func (w *world) connect(dS, dC *directive, via string, noWaitS bool) (*link, string) {
 	if dS == nil {
 		dS = &directive{}
@@ -425,29 +447,66 @@ func (w *world) connect(dS, dC *directive, via string, noWaitS bool) (*link, str
 		dC = &directive{}
 	}
 	l := &link{via: via}
-	w.pushDirs(dS, dC)
 	var isA func(*sinfo) bool
 	if !w.tcp {
+		w.pushDirs(dS, dC)
 		ca, cb := memconn.NewPair()
-		l.sdone = run(func() { w.peers[sideS].ServeConn(cb) })
-		l.cdone = run(func() { w.peers[sideC].ServeConn(ca) })
 		want := ca.LocalAddr().String()
 		isA = func(si *sinfo) bool { return si.side == sideC && si.sess.LocalAddr().String() == want }
-	} else if via == "dial" {
-		before := len(w.sessions())
-		l.cdone = run(func() { w.peers[sideC].Dial(w.addr) })
-		isA = func(si *sinfo) bool { return si.side == sideC && si.n >= before }
-		l.sdone = make(chan struct{})
-	} else {
-		conn, err := net.Dial("tcp", w.addr)
-		if err != nil {
-			return nil, "tcp dial: " + err.Error()
+		startS := func() { l.sdone = run(func() { w.peers[sideS].ServeConn(cb) }) }
+		startC := func() { l.cdone = run(func() { w.peers[sideC].ServeConn(ca) }) }
+		switch {
+		case dC.park:
+			startC()
+			if w.waitFind(isA) == nil {
+				return nil, "the far-side session did not appear"
+			}
+			startS()
+			if ok, _ := w.await(l.sdone); !ok {
+				return nil, "the accepting side did not get through ServeConn"
+			}
+		case dC.reject:
+			startS()
+			if ok, _ := w.await(l.sdone); !ok {
+				return nil, "the accepting side did not get through ServeConn"
+			}
+			startC()
+			if ok, _ := w.await(l.cdone); !ok {
+				return nil, "the far side did not get through ServeConn"
+			}
+		default:
+			startC()
+			if ok, _ := w.await(l.cdone); !ok {
+				return nil, "the far side did not get through ServeConn"
+			}
+			startS()
+			if !dS.park && !noWaitS {
+				if ok, _ := w.await(l.sdone); !ok {
+					return nil, "the accepting side did not get through ServeConn"
+				}
+			}
 		}
-		w.conns = append(w.conns, conn)
-		l.cdone = run(func() { w.peers[sideC].ServeConn(conn) })
-		want := conn.LocalAddr().String()
-		isA = func(si *sinfo) bool { return si.side == sideC && si.sess.LocalAddr().String() == want }
-		l.sdone = make(chan struct{})
+	} else {
+		if dC.reject {
+			dC.hold = make(chan struct{})
+		} else if !dC.park {
+			dS.hold = make(chan struct{})
+		}
+		w.pushDirs(dS, dC)
+		if via == "dial" {
+			before := len(w.sessions())
+			l.cdone = run(func() { w.peers[sideC].Dial(w.addr) })
+			isA = func(si *sinfo) bool { return si.side == sideC && si.n >= before }
+		} else {
+			conn, err := net.Dial("tcp", w.addr)
+			if err != nil {
+				return nil, "tcp dial: " + err.Error()
+			}
+			w.conns = append(w.conns, conn)
+			l.cdone = run(func() { w.peers[sideC].ServeConn(conn) })
+			want := conn.LocalAddr().String()
+			isA = func(si *sinfo) bool { return si.side == sideC && si.sess.LocalAddr().String() == want }
+		}
 	}
 	l.a = w.waitFind(isA)
 	if l.a == nil {
@@ -457,29 +516,29 @@ func (w *world) connect(dS, dC *directive, via string, noWaitS bool) (*link, str
 	wantB := l.a.sess.LocalAddr().String()
 	l.b = w.waitFind(func(si *sinfo) bool { return si.side == sideS && si.sess.RemoteAddr().String() == wantB })
 	if l.b == nil {
-		if dC.park {
-			// TCP: the server accepts although the client hook is parked; memconn likewise. Not reached normally.
-			return nil, "the accepting-side session did not appear"
-		}
 		return nil, "the accepting-side session did not appear"
 	}
 	l.b.link = l
 	if w.tcp {
-		// the accept loop has no completion signal: the session is through its hook when it is established or rejected
-		b := l.b
-		go func() {
-			bed.WaitUntil(20*time.Second, func() bool { return b.established() || atomic.LoadInt32(&b.rejected) != 0 })
-			close(l.sdone)
-		}()
-	}
-	if !dC.park {
-		if ok, _ := w.await(l.cdone); !ok {
-			return nil, "the far side did not get through ServeConn / Dial"
+		// the accept loop has no completion signal but the hook's return (index insert, status change and read loop
+		// follow in the same goroutine; callers wait for quiescence before relying on them)
+		l.sdone = l.b.through
+		if dC.hold != nil {
+			if ok, _ := w.await(l.sdone); !ok {
+				return nil, "the accepting side did not get through its accept"
+			}
+			dC.unhold()
 		}
-	}
-	if !dS.park && !noWaitS {
-		if ok, _ := w.await(l.sdone); !ok {
-			return nil, "the accepting side did not get through its accept"
+		if !dC.park {
+			if ok, _ := w.await(l.cdone); !ok {
+				return nil, "the far side did not get through ServeConn / Dial"
+			}
+		}
+		dS.unhold()
+		if !dS.park && !noWaitS {
+			if ok, _ := w.await(l.sdone); !ok {
+				return nil, "the accepting side did not get through its accept"
+			}
 		}
 	}
 	l.n = len(w.links)
@@ -489,6 +548,9 @@ func (w *world) connect(dS, dC *directive, via string, noWaitS bool) (*link, str
 
 func (w *world) plain() (*link, string) {
 	via := "serveconn"
+	if w.tcp {
+		via = "dial"
+	}
 	return w.connect(nil, nil, via, false)
 }
 
@@ -534,6 +596,7 @@ func (w *world) teardown() {
 	ds := append([]*directive(nil), w.allDirs...)
 	w.mu.Unlock()
 	for _, d := range ds {
+		d.unhold()
 		d.free()
 	}
 	gates.Reset()
@@ -628,14 +691,20 @@ func (w *world) check(useModel bool) (out []viol, diverged string) {
 				name = o.name()
 			}
 			if !e.Health() {
-				vs.add("stale-index-entry", fmt.Sprintf("peer %s: RangeSession yields %s (id %q) whose status is %s", sideName[side], name, e.ID(), stName(erpc.VerifStatus(e))))
+				vs.add("stale-index-entry", fmt.Sprintf("peer %s: RangeSession yields %s (id %q) whose status is %s; CountSession()=%d with %d healthy established sessions", sideName[side], name, e.ID(), stName(erpc.VerifStatus(e)), p.CountSession(), len(live)))
 				continue
 			}
 			if g, ok := p.GetSession(e.ID()); !ok || g != e || seen[e] > 1 {
 				vs.add("indexed-under-wrong-id", fmt.Sprintf("peer %s: index entry for %s is stored under another key than its current ID() %q (entries for it: %d)", sideName[side], name, e.ID(), seen[e]))
 			}
 		}
-		if n := p.CountSession(); n != len(live) {
+		implied := false // a missing / stale / misplaced entry already explains a wrong count (its text carries CountSession)
+		for _, v := range vs.vs {
+			if strings.HasPrefix(v.what, "peer "+sideName[side]+":") && (v.sym == "live-session-not-indexed" || v.sym == "stale-index-entry" || v.sym == "indexed-under-wrong-id") {
+				implied = true
+			}
+		}
+		if n := p.CountSession(); n != len(live) && !implied {
 			var names []string
 			for _, si := range live {
 				names = append(names, si.name())
@@ -910,8 +979,8 @@ func (w *world) exec(o op) (out stepOut) {
 		}
 		dS, dC := &directive{}, &directive{}
 		via := "serveconn"
-		if w.tcp && o.V%2 == 1 {
-			via = "dial"
+		if w.tcp && o.V%4 != 0 {
+			via = "dial" // ServeConn'ed client connections to one listener share their default id (see scriptList)
 		}
 		switch o.K {
 		case "accept-reject":
@@ -982,11 +1051,19 @@ func (w *world) exec(o op) (out stepOut) {
 		}
 		a, b := l.a, l.b
 		rejA, rejB := atomic.LoadInt32(&a.rejected) != 0, atomic.LoadInt32(&b.rejected) != 0
+		// a newly established session takes over its id from an older live one (also with default ids: the far
+		// ends of two ServeConn'ed connections to one listener both default to the listener's address)
 		if !rejA {
 			a.m, a.mid = mOK, a.sess.ID()
+			if w.mTakeover(sideC, a.mid, a) {
+				core.Add("model_takeovers", 1)
+			}
 		}
 		if !rejB {
 			b.m, b.mid = mOK, b.sess.ID()
+			if w.mTakeover(sideS, b.mid, b) {
+				core.Add("model_takeovers", 1)
+			}
 		}
 		if rejB {
 			w.mark(b, "its accept hook rejected it and the peer closed it")
@@ -997,12 +1074,6 @@ func (w *world) exec(o op) (out stepOut) {
 				w.mark(a, "its accept hook rejected it and the peer closed it")
 			}
 			w.mClose(b, "the far peer rejected the connection")
-		}
-		if dS.setid != "" && !rejB {
-			if w.mTakeover(sideS, dS.setid, b) {
-				core.Add("model_takeovers", 1)
-			}
-			b.mid = dS.setid
 		}
 	case "setid-fresh", "setid-collide", "setid-same":
 		l := w.pickLink(o)
@@ -1163,7 +1234,9 @@ func runHistory(path string, ops []op, counters bool) (r hres) {
 	r.step = -1
 	prev := "start"
 	for i, o := range ops {
+		opStart := time.Now()
 		so := w.exec(o)
+		timing(fmt.Sprintf("   op %d %s exec", i, so.label), opStart)
 		if so.skipped {
 			r.trace = append(r.trace, fmt.Sprintf("%d: %s skipped", i, o.K))
 			continue
@@ -1183,6 +1256,7 @@ func runHistory(path string, ops []op, counters bool) (r hres) {
 			return
 		}
 		vs, inc := w.judge(true)
+		timing(fmt.Sprintf("   op %d %s exec+judge", i, so.label), opStart)
 		vs = append(so.early, vs...)
 		if len(vs) > 0 {
 			r.viols, r.step, r.label, r.dump = vs, i, so.label, w.dump()
@@ -1205,22 +1279,42 @@ func hasSym(vs []viol, sym string) bool {
 	return false
 }
 
-// minimise drops ops while the same (op label, symptom) keeps failing.
+// minimise drops ops while the same (op label, symptom) keeps failing (passes are repeated until none helps),
+// then tries to turn the remaining special accepts into plain ones.
 func minimise(path string, ops []op, first hres) ([]op, hres) {
 	cur := append([]op(nil), ops[:first.step+1]...)
 	best := first
 	sym := first.viols[0].sym
-	budget := 40
-	for i := len(cur) - 2; i >= 0 && budget > 0; i-- {
-		if i >= len(cur) {
-			continue
-		}
-		cand := append(append([]op(nil), cur[:i]...), cur[i+1:]...)
+	budget := 70
+	if path == "listener" {
+		budget = 3 // every step costs several 250 ms quiescence windows there; these histories are short anyway
+	}
+	try := func(cand []op) bool {
 		budget--
 		res := runHistory(path, cand, false)
 		if res.step >= 0 && res.label == first.label && hasSym(res.viols, sym) {
-			cur = cand[:res.step+1]
+			cur = append([]op(nil), cand[:res.step+1]...)
 			best = res
+			return true
+		}
+		return false
+	}
+	for progress := true; progress && budget > 0; {
+		progress = false
+		for i := len(cur) - 2; i >= 0 && budget > 0; i-- {
+			if i >= len(cur)-1 {
+				continue
+			}
+			if try(append(append([]op(nil), cur[:i]...), cur[i+1:]...)) {
+				progress = true
+			}
+		}
+	}
+	for i := 0; i < len(cur)-1 && budget > 0; i++ {
+		if strings.HasPrefix(cur[i].K, "accept-") || cur[i].K == "reject-far" {
+			cand := append([]op(nil), cur...)
+			cand[i].K = "accept"
+			try(cand)
 		}
 	}
 	return cur, best
@@ -1263,6 +1357,14 @@ func genOps(r *core.Rand, maxOps int) []op {
 
 var minimised = map[string]bool{}
 
+var t0 = time.Now()
+
+func timing(id string, start time.Time) {
+	if os.Getenv("C07_TIMING") != "" {
+		fmt.Fprintf(os.Stderr, "timing %s %.2fs (at %.1fs)\n", id, time.Since(start).Seconds(), time.Since(t0).Seconds())
+	}
+}
+
 func report(id string, desc caseDesc, fpMid string, vs []viol, witness map[string]interface{}) {
 	for i, v := range vs {
 		rid := id
@@ -1281,6 +1383,7 @@ func report(id string, desc caseDesc, fpMid string, vs []viol, witness map[strin
 
 func doHistory(id string, path string, ops []op) {
 	desc := caseDesc{Class: "history", Path: path, Ops: ops}
+	defer timing(id, time.Now())
 	core.Begin(id, desc)
 	res := runHistory(path, ops, true)
 	core.Add("histories", 1)
@@ -1319,6 +1422,7 @@ type concDesc struct {
 
 func doConcurrent(id string, path string, cd concDesc) {
 	desc := caseDesc{Class: "concurrent", Path: path, Conc: &cd}
+	defer timing(id, time.Now())
 	core.Begin(id, desc)
 	class := "mix-fresh"
 	if cd.Collide {
@@ -1364,6 +1468,9 @@ func doConcurrent(id string, path string, cd concDesc) {
 				atomic.AddInt64(&nops, 1)
 				switch c := r.Intn(20); {
 				case c < 6:
+					if !x.sess.Health() {
+						continue // SetID on a session that is already closed is a history op (label @closed), not a race
+					}
 					id := fmt.Sprintf("f%d", atomic.AddInt64(&fresh, 1))
 					if cd.Collide {
 						id = fmt.Sprintf("p%d", r.Intn(3))
@@ -1538,8 +1645,13 @@ func scriptList(path string, full bool) []scriptDesc {
 		out[i].Side = "S"
 	}
 	if path == "listener" {
+		// the far ends of ServeConn'ed client connections all default to the listener's address as id and take each
+		// other over (a history op of its own); scripts with more than one connection dial, so that ids are unique
 		for i := range out {
 			out[i].Via = []string{"dial", "serveconn"}[i%2]
+			if out[i].Kind == "setid-mid" || out[i].Kind == "hub-mid" {
+				out[i].Via = "dial"
+			}
 		}
 	}
 	if full {
@@ -1573,6 +1685,10 @@ func runScript(w *world, sd scriptDesc) (vs []viol, inconcl string) {
 		l, err := w.connect(nil, nil, via, false)
 		if err != "" {
 			inconcl = "harness: " + err
+			return nil
+		}
+		if w.tcp && !w.quiesce() {
+			inconcl = "watchdog"
 			return nil
 		}
 		return l
@@ -1957,6 +2073,7 @@ func runScript(w *world, sd scriptDesc) (vs []viol, inconcl string) {
 
 func doScript(id, path string, sd scriptDesc) {
 	desc := caseDesc{Class: "gate", Path: path, Script: &sd}
+	defer timing(id+" "+sd.Script, time.Now())
 	core.Begin(id, desc)
 	gates.Reset()
 	if sd.Delay > 0 {
